@@ -272,3 +272,44 @@ def rule_checkform(ctx, prop: str) -> RuleResult:
     need(g is not None and pat.has("_M_s.verify(ADef(Shadows(_M_a, _M_a)))", f.node), f, "Shadows(a,a)", "idempotence is `a` shadowing itself, definitely")
     res.floor = 7
     return res
+
+
+def rule_ctxshape(ctx, prop: str) -> RuleResult:
+    """Path conditions: every Check_* reasons under the control predicate of the focused
+    statement and guards effects by branch conditions / loop bounds.  Polarity matters:
+    then-branch under cond, else-branch under NOT cond, loop body under lo <= i < hi."""
+    from .. import pat
+
+    ix = ctx.ix
+    res = RuleResult("CTXSHAPE")
+    m = ix.module(NE)
+
+    def need(ok, f, key, msg, sample=""):
+        res.instances += 1
+        res.nontrivial += 1
+        res.ob(ok)
+        if sample:
+            res.sample(sample)
+        if not ok:
+            res.add(Finding("CTXSHAPE", NE, f.lineno, f.qualname, key, msg))
+
+    BDS = "AAnd(lift_e(_M_s.lo) <= AInt(_M_s.iter), AInt(_M_s.iter) < lift_e(_M_s.hi))"
+    f = m.func("ContextExtraction.ctrlp_s")
+    res.analysed.append(f"{NE}:{f.qualname}")
+    need(pat.has("_M_p = self.ctrlp_stmts(_M_s.body)\nif _M_p is not None:\n    return AAnd(lift_e(_M_s.cond), _M_p)", f.node), f, "then:cond", "a statement in the then-branch runs under the branch condition")
+    need(pat.has("_M_p = self.ctrlp_stmts(_M_s.orelse)\nif _M_p is not None:\n    return AAnd(ANot(lift_e(_M_s.cond)), _M_p)", f.node), f, "else:not-cond", "a statement in the else-branch runs under the *negated* condition")
+    need(pat.has(BDS, f.node), f, "loop:lo<=i<hi", "a statement in a loop body runs under lo <= i < hi")
+    f = m.func("ContextExtraction.posteff_s")
+    res.analysed.append(f"{NE}:{f.qualname}")
+    need(pat.has("_M_e = self.posteff_stmts(_M_s.body)\nif _M_e is not None:\n    return [E.Guard(lift_e(_M_s.cond), _M_e)]", f.node), f, "post-then:cond", "effects after a statement in the then-branch are guarded by the condition")
+    need(pat.has("_M_e = self.posteff_stmts(_M_s.orelse)\nif _M_e is not None:\n    return [E.Guard(ANot(lift_e(_M_s.cond)), _M_e)]", f.node), f, "post-else:not-cond", "effects after a statement in the else-branch are guarded by the negated condition")
+    f = m.func("ContextExtraction.get_control_predicate")
+    need(pat.has("AAnd(*[lift_e(_M_p) for _M_p in self.proc.preds])", f.node), f, "preds-assumed", "the procedure's assertions are assumed")
+    need(pat.has("AInt(_M_a.name) > AInt(0)", f.node), f, "sizes>0", "size arguments are assumed positive (> 0, not >= 0)")
+    f = m.func("stmts_effs")
+    res.analysed.append(f"{NE}:stmts_effs")
+    need(pat.has("E.Guard(lift_e(_M_s.cond), stmts_effs(_M_s.body))", f.node), f, "eff-then:cond", "effects of the then-branch are guarded by the condition")
+    need(pat.has("E.Guard(ANot(lift_e(_M_s.cond)), stmts_effs(_M_s.orelse))", f.node), f, "eff-else:not-cond", "effects of the else-branch are guarded by the negated condition")
+    need(pat.has("_M_b = " + BDS, f.node) and pat.has("E.Loop(_M_s.iter, [E.Guard(_M_b, _M_body)])", f.node), f, "eff-loop:bounds", "effects of a loop body are quantified over lo <= i < hi")
+    res.floor = 10
+    return res
